@@ -7,27 +7,38 @@
 #include <string>
 #include <vector>
 #include "../adapter/jv_abi.h"
+#include <sys/mman.h>
 #include "util.hpp"
 
 namespace jv {
 
+// Guard mode (a per-run fault decision, plan cfg "guard"): every caller object sits flush against an inaccessible page - 1: its last byte is the
+// last byte of mapped memory, 2: its first byte is the first. Hand-written assembly is invisible to the sanitizers; a load or store one word
+// beyond an operand (even of a value that is never used) faults here, as it would for a caller whose object ends a mapping.
+extern int g_buf_guard;
 // exactly-sized, 16-aligned heap block (ASan sees one-byte overruns)
 struct Buf {
-    uint8_t* p = nullptr; size_t n = 0;
+    uint8_t* p = nullptr; size_t n = 0; uint8_t* gbase = nullptr; size_t gtotal = 0;
     Buf() {}
     explicit Buf(size_t n_, int fill = 0) { alloc(n_, fill); }
     Buf(const Buf& o) { if (o.p) { alloc(o.n); memcpy(p, o.p, n); } }
     Buf& operator=(const Buf& o) { if (this != &o) { release(); if (o.p) { alloc(o.n); memcpy(p, o.p, n); } } return *this; }
-    Buf(Buf&& o) noexcept : p(o.p), n(o.n) { o.p = nullptr; o.n = 0; }
-    Buf& operator=(Buf&& o) noexcept { if (this != &o) { release(); p = o.p; n = o.n; o.p = nullptr; o.n = 0; } return *this; }
+    Buf(Buf&& o) noexcept : p(o.p), n(o.n), gbase(o.gbase), gtotal(o.gtotal) { o.p = nullptr; o.n = 0; o.gbase = nullptr; o.gtotal = 0; }
+    Buf& operator=(Buf&& o) noexcept { if (this != &o) { release(); p = o.p; n = o.n; gbase = o.gbase; gtotal = o.gtotal; o.p = nullptr; o.n = 0; o.gbase = nullptr; o.gtotal = 0; } return *this; }
     ~Buf() { release(); }
     void alloc(size_t n_, int fill = 0) {
         release(); n = n_;
         if (n == 0) { p = nullptr; return; }
+        if (g_buf_guard) {
+            size_t body = (n + 4095) & ~(size_t) 4095; gtotal = body + 2 * 4096;
+            gbase = (uint8_t*) mmap(nullptr, gtotal, PROT_READ | PROT_WRITE, MAP_PRIVATE | MAP_ANONYMOUS, -1, 0); if (gbase == MAP_FAILED) abort();
+            mprotect(gbase, 4096, PROT_NONE); mprotect(gbase + 4096 + body, 4096, PROT_NONE);
+            p = g_buf_guard == 2 ? gbase + 4096 : gbase + 4096 + body - n; memset(gbase + 4096, 0xD7, body); memset(p, fill, n); return;
+        }
         void* q = nullptr; if (posix_memalign(&q, 16, n) != 0) abort();
         p = (uint8_t*) q; memset(p, fill, n);
     }
-    void release() { if (p) free(p); p = nullptr; n = 0; }
+    void release() { if (gbase) { munmap(gbase, gtotal); gbase = nullptr; gtotal = 0; } else if (p) free(p); p = nullptr; n = 0; }
     void* get() const { return p; }
     operator void*() const { return p; }
     bool empty() const { return p == nullptr; }
